@@ -512,7 +512,10 @@ class SymArray(_nd):
     def __array_finalize__(self, obj):
         pass
 
-    dtype = property(_fake_dtype)
+    def _set_dtype(self, value):
+        _nd.dtype.__set__(self, value)
+
+    dtype = property(_fake_dtype, _set_dtype)
 
     __array_ufunc__ = sym_array_ufunc
 
